@@ -169,6 +169,8 @@ type heldSlice struct {
 }
 
 type RunCtx struct {
+	inIniRead bool
+	reentered int
 	held      []heldSlice
 	bytesSeen int64 // bytes of input the boot has taken in so far (argv, INI text, stored values)
 	b         *Built
@@ -276,6 +278,12 @@ func (c *RunCtx) callee(kind, who string, args []string) error {
 		var sink simrt.Sink
 		c.b.P.WriteHelp(&sink)
 		c.b.P.FindOptionByLongName("help")
+		if c.inIniRead && c.b.KeptIni != nil && c.reentered < 3 {
+			// an include-style callback: read another document through the same IniParser
+			c.reentered++
+			c.b.KeptIni.Parse(&simrt.Reader{Data: []byte("; included\n")})
+			c.reentered--
+		}
 	}
 	c.calls = append(c.calls, call)
 	return err
@@ -595,6 +603,8 @@ func runOp(w *simrt.World, b *Built, op *Op, res *OpResult) {
 		}
 		ip := b.KeptIni
 		ip.ParseAsDefaults = op.AsDefaults
+		cur.inIniRead = true
+		defer func() { cur.inIniRead = false }()
 		var err error
 		if op.File == "" {
 			rd := &simrt.Reader{Data: []byte(op.Data), Steps: op.Chunks, Rest: op.Rest, FailAt: op.FailAt, FailErr: op.FailErr, FailWith: op.FailWith}
